@@ -86,6 +86,7 @@ func scenarios(sender common.Address, senderNonce uint64) []scenario {
 		{name: "pay-back-sender", to: callee, code: A().Push(0).Push(0).Push(0).Push(0).Push(3).Op(CALLER).Push(0).Op(0xf1).Op(STOP).B, calleeBal: big.NewInt(10), needGas: 60000},
 		{name: "pay-coinbase", to: callee, code: A().Call(0, coinbase, 3).Op(STOP).B, calleeBal: big.NewInt(10), needGas: 60000},
 		{name: "selfdestruct-to-sink", to: callee, code: A().PushAddr(sink).Op(SELFDESTRUCT).B, calleeBal: big.NewInt(10), storage: map[byte]byte{0: 1}, needGas: 60000},
+		{name: "selfdestruct-zero-to-fresh", to: callee, code: A().PushAddr(fresh).Op(SELFDESTRUCT).B, needGas: 60000},
 		{name: "selfdestruct-to-sender", to: callee, code: A().Op(CALLER).Op(SELFDESTRUCT).B, calleeBal: big.NewInt(10), needGas: 60000},
 		{name: "selfdestruct-to-self", to: callee, code: A().Op(ADDRESS).Op(SELFDESTRUCT).B, calleeBal: big.NewInt(10), needGas: 60000},
 		{name: "selfdestruct-coinbase-is-callee", to: coinbase, code: A().PushAddr(sink).Op(SELFDESTRUCT).B, calleeBal: big.NewInt(10), needGas: 60000},
@@ -440,7 +441,7 @@ func (k *txCase) finish(byz bool) {
 
 // directed cases, run on every seed: the sender holds the largest nonce (2^64-1) and sends a valid
 // call / creation (the known finding nonce-wraps-at-max-uint64), on both receipt formats
-const nDirected = 8
+const nDirected = 14
 
 func directedCase(i int) *txCase {
 	ccs := cfgChoices()
@@ -452,20 +453,32 @@ func directedCase(i int) *txCase {
 		extraGas  int64  // gas above intrinsic; -1 = what the scenario needs
 		emptyMask int
 		tag       string
+		price     int64
 	}
 	specs := []spec{
-		{0, "eoa-existing", true, 1, -1, 0, "max-nonce"}, {3, "create-ok", true, 1, -1, 0, "max-nonce"},
-		{2, "sstore-set", true, 1, -1, 0, "max-nonce"}, {5, "create-init-sstore", true, 1, -1, 0, "max-nonce"},
+		{0, "eoa-existing", true, 1, -1, 0, "max-nonce", 1}, {3, "create-ok", true, 1, -1, 0, "max-nonce", 1},
+		{2, "sstore-set", true, 1, -1, 0, "max-nonce", 1}, {5, "create-init-sstore", true, 1, -1, 0, "max-nonce", 1},
 		// a failing call (precompile out of gas) whose recipient is an existing empty account, after EIP-158: with value ...
-		{0, "precompile-identity", false, 1, 5, 1 << 4, "failed-call-existing-empty-recipient"},
+		{0, "precompile-identity", false, 1, 5, 1 << 4, "failed-call-existing-empty-recipient", 1},
 		// ... and the same on SHA-256
-		{7, "precompile-sha256", false, 3, 5, 1 << 2, "failed-call-existing-empty-recipient"},
+		{7, "precompile-sha256", false, 3, 5, 1 << 2, "failed-call-existing-empty-recipient", 1},
 		// a failing call to a recipient that does not exist yet, before EIP-158
-		{4, "precompile-sha256", false, 0, 5, 0, "failed-call-missing-recipient-pre-eip158"},
-		{5, "precompile-identity", false, 0, 5, 0, "failed-call-missing-recipient-pre-eip158"},
+		{4, "precompile-sha256", false, 0, 5, 0, "failed-call-missing-recipient-pre-eip158", 1},
+		{5, "precompile-identity", false, 0, 5, 0, "failed-call-missing-recipient-pre-eip158", 1},
+		// EIP-161 touch cases (theorems C06_finalise_deletion_rule / C06_add_balance_touches / C06_empty_coinbase_deleted,
+		// Example C06_touch_cases): zero-value transfer to an existing empty account, after and before EIP-158
+		{0, "eoa-fresh", false, 0, -1, 1 << 0, "touch:zero-value-transfer-to-existing-empty", 1},
+		{4, "eoa-fresh", false, 0, -1, 1 << 0, "touch:zero-value-transfer-to-existing-empty", 1},
+		// zero fee to an existing empty coinbase, after and before EIP-158
+		{2, "eoa-existing", false, 1, -1, 1 << 1, "touch:zero-fee-to-existing-empty-coinbase", 0},
+		{3, "eoa-existing", false, 1, -1, 1 << 1, "touch:zero-fee-to-existing-empty-coinbase", 0},
+		// SELFDESTRUCT paying zero to an existing empty beneficiary
+		{0, "selfdestruct-zero-to-fresh", false, 0, -1, 1 << 0, "touch:zero-selfdestruct-payout-to-existing-empty", 1},
+		// a failed zero-value call to the existing empty RIPEMD-160 precompile (its reverted touch is kept)
+		{0, "precompile-ripemd", false, 0, 5, 1 << 3, "touch:reverted-touch-of-ripemd", 1},
 	}
 	sp := specs[i%len(specs)]
-	k := &txCase{sender: addrA, coinbase: coinbase, cc: ccs[sp.cc], price: big.NewInt(1), value: big.NewInt(sp.value), pool: 8000000, emptyMask: sp.emptyMask}
+	k := &txCase{sender: addrA, coinbase: coinbase, cc: ccs[sp.cc], price: big.NewInt(sp.price), value: big.NewInt(sp.value), pool: 8000000, emptyMask: sp.emptyMask}
 	if sp.maxNonce {
 		k.stNonce, k.txNonce = ^uint64(0), ^uint64(0)
 	}
@@ -553,6 +566,17 @@ func stripKeys(s string, keys ...string) string {
 	return strings.Join(out, " ")
 }
 
+func outcomeClass(run *TxRun, t *Tracer, traced bool) string {
+	switch {
+	case run.Err != nil:
+		return "err"
+	case run.Receipt.Status != types.ReceiptStatusSuccessful:
+		return "failed:" + t.Status()
+	default:
+		return "ok"
+	}
+}
+
 func runCase(c *vh.Ctx, m *vh.Model, k *txCase) {
 	cfg := k.cc.cfg.C
 	num := new(big.Int).SetUint64(k.cc.num)
@@ -560,6 +584,13 @@ func runCase(c *vh.Ctx, m *vh.Model, k *txCase) {
 	pre := SnapAll(sdb, k.u)
 	preDump := DumpState(sdb, k.u)
 	tx := k.tx()
+	// the composed model (EVM of Evm/Interp.v inside the transaction model) applies to message calls under the mainnet
+	// configuration whose callee is not a precompile (the composed environment has no precompile oracle)
+	composed := k.cc.cfg.Token == "b0" && !k.sc.create && !strings.HasPrefix(k.sc.name, "precompile") && k.emptyMask&0x1c == 0
+	preContent := ""
+	if composed {
+		preContent = DumpContent(sdb, k.u, true)
+	}
 	gp := new(core.GasPool).AddGas(k.pool)
 	used := k.cum
 	run := ApplyTx(cfg, nil, k.header(), sdb, gp, &used, tx, 0, k.u)
@@ -599,6 +630,19 @@ func runCase(c *vh.Ctx, m *vh.Model, k *txCase) {
 	}
 	c.Eval(k.class+"|"+outcome, k.class+"|"+outcome+"|"+k.price.String()+"|"+fmt.Sprint(k.limit))
 	c.Correspond("core.ApplyTransaction~apply_transaction", req, observed, ans)
+	if composed && run.Panic == nil {
+		obsI := observed
+		if run.Err == nil {
+			obsI = stripKeys(observed, "state") + " state=" + DumpContent(sdb, k.u, false)
+		}
+		reqI := fmt.Sprintf("txi %d %s %s %s %s %s 8000000 1000 1 400000", k.cc.num, HexAddr(k.coinbase), HexU(k.pool), HexU(k.cum), preContent, MsgTok(k.sender, tx))
+		ansI := m.Ask(reqI)
+		if !traced {
+			ansI = stripKeys(ansI, "intrinsic", "gasleft", "refund")
+		}
+		c.Correspond("core.ApplyTransaction(with the real EVM)~apply_transaction_i(Tx model + Evm/Interp.v)", reqI, obsI, ansI)
+		c.Count("composed:" + outcomeClass(run, t, traced))
+	}
 	if len(c.Res.Samples) < 6 && c.Res.Evaluations%97 == 0 {
 		c.Sample(map[string]string{"request": req, "observed": observed})
 	}
